@@ -1,5 +1,12 @@
 #!/usr/bin/env python3
-"""Regenerate frg/known_functions.json = the qualified names of all functions the witness units see in the CURRENT
+"""usage: gen_known_functions.py [--names] [--arities] [--records]   (without a flag: report only, write nothing)
+
+CAUTION: the three lists freeze what existed WHEN THE RULES WERE WRITTEN; everything else is a "new helper" that the
+inliner folds into its callers.  A repair in /repo that introduces a helper (e.g. small_vector::_relocate, the two-parameter
+_ensure_capacity) must stay OUT of the lists, or the rules lose sight of it: only pass a flag right after adding a witness
+instantiation on an otherwise unchanged tree, and review the diff of the json file.
+
+Regenerate frg/known_functions.json = the qualified names of all functions the witness units see in the CURRENT
 /repo tree (run only on the unchanged tree, after adding a witness unit / instantiation). Names are only ever added."""
 import json, os, sys
 HERE = os.path.dirname(os.path.abspath(__file__))
@@ -12,6 +19,8 @@ p = os.path.join(os.path.dirname(HERE), "frg", "known_functions.json")
 names = set(json.load(open(p)))
 pa = os.path.join(os.path.dirname(HERE), "frg", "known_arities.json")
 arities = set(json.load(open(pa))) if os.path.exists(pa) else set()
+pr = os.path.join(os.path.dirname(HERE), "frg", "known_records.json")
+recs = set(json.load(open(pr))) if os.path.exists(pr) else set()
 before = len(names)
 for u, fl in units:
     try:
@@ -21,6 +30,13 @@ for u, fl in units:
     for f in un.functions:
         names.add(f.uq)
         arities.add("%s/%d" % (f.uq, len(f.params())))
-json.dump(sorted(names), open(p, "w"), indent=0)
-json.dump(sorted(arities), open(pa, "w"), indent=0)
+    for r in un.records:
+        recs.add(r["uq"])
+if "--names" in sys.argv:
+    json.dump(sorted(names), open(p, "w"), indent=0)
+if "--arities" in sys.argv:
+    json.dump(sorted(arities), open(pa, "w"), indent=0)
+if "--records" in sys.argv:
+    json.dump(sorted(recs), open(pr, "w"), indent=0)
+print("(written: %s)" % ([f for f in ("--names", "--arities", "--records") if f in sys.argv] or "nothing, report only"))
 print("known functions: %d -> %d" % (before, len(names)))
